@@ -24,7 +24,7 @@ from ..model import AnalysisError, ClassInfo, FunctionInfo
 from ..pitlib import analyse_masker, pit_layer_classes
 from ..sym import NONE, Term, mentions, show, subterms
 from ..util import (SELF, Inliner, arg, attr_classes, bind_args, callee, is_call, method_call,
-                    param_classes, paths, returning, short, strip_calls, where)
+                    param_classes, paths, paths_split, returning, short, strip_calls, where)
 
 EXPLANATION = ('Static analysis of the PIT layer classes: zero-on-pruned-channel abstract domain '
                'over forward(), anchor domain (START/END) over the mask constants, def-use '
@@ -410,7 +410,7 @@ def r01_export(ctx, classes: List[ClassInfo]):
         sub = find_export_submodule(ctx, fn, ci)
         has = lambda name: ctx.repo.find_getter(ci, name) is not None   # noqa: E731
         is_bn = kind.startswith('BatchNorm')
-        ps = [p for p in returning(paths(ctx.repo, fn))]
+        ps = [p for p in returning(paths_split(ctx.repo, fn))]     # x = A if c else B ~ if/else
         if not ps:
             raise AnalysisError(f'{fn.qualname}: no returning path')
         checked_ctor = 0
